@@ -603,3 +603,7 @@ pub use self::wasm_simd::wasm_simd_planner::FftPlannerWasmSimd;
 
 #[cfg(test)]
 mod test_utils;
+
+/// Verification hooks: re-exports of crate-private helpers. Only compiled with `--cfg rustfft_verif`.
+#[cfg(rustfft_verif)]
+pub mod verif_hooks;
